@@ -175,7 +175,14 @@ def rule_types_rebind(ctx, rid="R16.3"):
                     found += 1
                     if isinstance(t.value, ast.Name) and t.value.id == s:
                         v = n.value
-                        pure = isinstance(v, ast.Call) and isinstance(v.func, ast.Attribute) and v.func.attr in ("redefine_many", "redefine", "remove")
+                        fn = v.func if isinstance(v, ast.Call) else None
+                        if isinstance(fn, ast.Name):
+                            # the bound method held in a local bound once: `redefine_many = self.TYPE_CHECKER.redefine_many`
+                            defs = [a.value for a in walk_body(init) if isinstance(a, ast.Assign) and any(isinstance(x, ast.Name) and x.id == fn.id for x in a.targets)]
+                            if len(defs) == 1 and fn.id not in init.all_params:
+                                fn = defs[0]
+                        pure = isinstance(fn, ast.Attribute) and fn.attr in ("redefine_many", "redefine", "remove") and \
+                            norm(fn.value) in ("%s.TYPE_CHECKER" % s, "type(%s).TYPE_CHECKER" % s)
                         if pure:
                             r.ok(site(init, n), "%s = %s" % (norm(t), norm(v)[:60]))
                         else:
@@ -346,7 +353,7 @@ def rule_api_writes_no_shared_state(ctx, rid="R16.9"):
              prog.func("validators.validator_for")]
     roots += [m for n, m in prog.cls("_types.TypeChecker").methods.items()]
     roots += [prog.cls("_format.FormatChecker").methods[n] for n in ("__init__", "check", "conforms")]
-    allowed_writers = {"validators.validates._validates", "_format.FormatChecker.checks._checks"}
+    allowed_writers = {g.qual for g in calls.registration_writers("validators") | calls.registration_writers("formats")}
     reach = calls.reachable(roots)
     r = ctx.rule(rid, "deriving, constructing and probing write no module-level or class-level state (other than the registries, through their one writer)", floor=30)
     for f in sorted(reach, key=lambda x: x.qual):
